@@ -57,8 +57,11 @@ CHECKS = {
     "C15": {
         "groups": [
             {"name": "c15-seq", "files": ["h_c15.go"], "harnesses": ["VerifH_C15_NewID", "VerifH_C15_CycleLemma", "VerifH_C15_PresetID"],
-             "flags": {"quick": [P(calls=8)], "thorough": [P(calls=16)]},
+             "flags": {"quick": [P(calls=8)], "thorough": ["-loop=400", P(calls=16)]},
              "reach": {"VerifH_C15_NewID": ["ids"], "VerifH_C15_CycleLemma": ["lemma"], "VerifH_C15_PresetID": ["written"]}},
+            {"name": "c15-sys", "files": ["h_sys.go"], "harnesses": ["VerifH_SYS_C15"], "concurrent": True,
+             "flags": {"quick": [P(nreq=2, faults=1)], "thorough": [P(nreq=3, faults=2)]},
+             "reach": {"VerifH_SYS_C15": ["quiescent", "publish-with-preset-id"]}},
             {"name": "c15-conc", "files": ["h_c15.go"], "harnesses": ["VerifH_C15_Concurrent", "VerifH_C15_AcrossReconnect"], "concurrent": True,
              "flags": {"quick": ["-race", "-delays=2", P(threads=2, percaller=2)], "thorough": ["-race", "-delays=3", P(threads=3, percaller=2)]},
              "reach": {"VerifH_C15_Concurrent": ["joined"], "VerifH_C15_AcrossReconnect": ["both-outstanding"]}},
@@ -69,6 +72,9 @@ CHECKS = {
             {"name": "c19", "files": ["h_c19.go"], "harnesses": ["VerifH_C19_Chain", "VerifH_C19_Timeout"],
              "flags": {"quick": [P(maxdepth=3)], "thorough": [P(maxdepth=5)]},
              "reach": {"VerifH_C19_Chain": ["built"], "VerifH_C19_Timeout": ["expired"]}},
+            {"name": "u-handle", "files": ["h_c11.go", "h_handle.go"], "harnesses": ["VerifH_Handle_Chain"], "concurrent": True,
+             "flags": {"quick": [P(maxdepth=2)], "thorough": [P(maxdepth=3)]},
+             "reach": {"VerifH_Handle_Chain": ["completed", "retransmitted"]}},
         ],
     },
     "C20": {
@@ -93,6 +99,9 @@ CHECKS = {
             {"name": "c01-sys", "files": ["h_sys.go"], "harnesses": ["VerifH_SYS_C01"], "concurrent": True,
              "flags": {"quick": [P(nreq=2, faults=1)], "thorough": [P(nreq=2, faults=2, connectfaults=1, dialfaults=1)]},
              "reach": {"VerifH_SYS_C01": ["quiescent"]}},
+            {"name": "u-handle", "files": ["h_c11.go", "h_handle.go"], "harnesses": ["VerifH_Handle_Chain"], "concurrent": True,
+             "flags": {"quick": [P(maxdepth=2)], "thorough": [P(maxdepth=3)]},
+             "reach": {"VerifH_Handle_Chain": ["completed", "retransmitted"]}},
             {"name": "u-retry", "files": ["h_retry.go"], "harnesses": ["VerifH_Retry_Pass"],
              "flags": {"quick": [P(maxqueue=4)], "thorough": [P(maxqueue=6)]},
              "reach": {"VerifH_Retry_Pass": ["pass-done", "failed-entry"]}},
@@ -113,6 +122,9 @@ CHECKS = {
             {"name": "c12-sys", "files": ["h_sys.go"], "harnesses": ["VerifH_SYS_C12"], "concurrent": True,
              "flags": {"quick": [P(nreq=2, faults=1)], "thorough": [P(nreq=2, faults=2)]},
              "reach": {"VerifH_SYS_C12": ["quiescent", "retransmission"]}},
+            {"name": "u-handle", "files": ["h_c11.go", "h_handle.go"], "harnesses": ["VerifH_Handle_Chain"], "concurrent": True,
+             "flags": {"quick": [P(maxdepth=2)], "thorough": [P(maxdepth=3)]},
+             "reach": {"VerifH_Handle_Chain": ["completed", "retransmitted"]}},
             {"name": "u-retry", "files": ["h_retry.go"], "harnesses": ["VerifH_Retry_Pass"],
              "flags": {"quick": [P(maxqueue=4)], "thorough": [P(maxqueue=6)]},
              "reach": {"VerifH_Retry_Pass": ["pass-done", "failed-entry"]}},
@@ -144,9 +156,9 @@ CHECKS = {
     },
     "C13": {
         "groups": [
-            {"name": "c13-keepalive", "files": ["h_c13.go"], "harnesses": ["VerifH_C13_KeepAlive"], "concurrent": True,
+            {"name": "c13-keepalive", "files": ["h_c13.go"], "harnesses": ["VerifH_C13_KeepAlive", "VerifH_C13_PromptPeer"], "concurrent": True,
              "flags": {"quick": [P(pings=2)], "thorough": [P(pings=3)]},
-             "reach": {"VerifH_C13_KeepAlive": ["returned", "cancelled", "late-answer", "silent", "ping-error"]}},
+             "reach": {"VerifH_C13_KeepAlive": ["returned", "cancelled", "late-answer", "silent", "ping-error", "parent-deadline"], "VerifH_C13_PromptPeer": ["returned"]}},
             {"name": "c13-keepalive-free", "files": ["h_c13.go"], "harnesses": ["VerifH_C13_KeepAlive"], "concurrent": True, "thorough_only": True,
              "flags": {"thorough": ["-solver=cvc5", P(pings=1, timeout_lt_interval=0)]},
              "reach": {"VerifH_C13_KeepAlive": ["returned"]}},
@@ -163,6 +175,9 @@ CHECKS = {
             {"name": "c16-sys", "files": ["h_sys_c16.go"], "harnesses": ["VerifH_SYS_C16"], "concurrent": True,
              "flags": {"quick": ["-ticks=6", P(faults=1)], "thorough": ["-ticks=8", P(faults=2)]},
              "reach": {"VerifH_SYS_C16": ["end", "healthy-last", "after-disconnect"]}},
+            {"name": "c16-sys-d1", "files": ["h_sys_c16.go"], "harnesses": ["VerifH_SYS_C16"], "concurrent": True,
+             "flags": {"quick": ["-delays=1", "-ticks=4", P(faults=0)], "thorough": ["-delays=1", "-ticks=6", P(faults=1)]},
+             "reach": {"VerifH_SYS_C16": ["end", "silent-peer"]}},
         ],
     },
     "C10": {
